@@ -28,7 +28,7 @@ impl Property for C14 {
         }
     }
     fn rule(&self) -> &'static str {
-        "one case = an arrangement of 2-4 project directories (names drawn from a small pool so that clashes are frequent, missing or syntactically invalid names, imports forming trees, diamonds, cycles and self-imports, import keys that do or do not match the imported project's name, unknown keys) + one request, executed under 8 different seeded hash orders (std RandomState keys come from the interposed getrandom) with the FIFO schedule. A few arrangements carry one document the documented schema excludes (empty target body, two kinds at once, unknown keys, invalid target name), which must be rejected; every 400th case is one valid project with a dependency chain of 12 000 or 4 000 targets (`--clean`, which resolves every target). Oracle: no run panics or aborts; the verdict (accepted / rejected before anything runs) and the multiset of scripts started are identical for all 8 hash orders. distinct_nontrivial = distinct (arrangement hash) among cases that load at least two projects"
+        "one case = an arrangement of 2-4 project directories (names drawn from a small pool so that clashes are frequent, missing or syntactically invalid names, imports forming trees, diamonds, cycles and self-imports, import keys that do or do not match the imported project's name, unknown keys) + one request, executed under 8 different seeded hash orders (std RandomState keys come from the interposed getrandom) with the FIFO schedule. A few arrangements carry one document the documented schema excludes (empty target body, two kinds at once, unknown keys, invalid target name), which must be rejected; every 12th case builds a valid two-project tree (recorded state exists), then breaks a reference so that only resolution can notice and runs `--clean` / `--clean top` / `top`: the refusal must leave the tree byte-identical; every 400th case is one valid project with a dependency chain of 12 000 or 4 000 targets (`--clean`, which resolves every target). Oracle: no run panics or aborts; the verdict (accepted / rejected before anything runs) and the multiset of scripts started are identical for all 8 hash orders. distinct_nontrivial = distinct (arrangement hash) among cases that load at least two projects"
     }
     fn assumptions(&self) -> Vec<&'static str> {
         vec!["only the schedule-free determinism and no-abort half of C14 is decided here; totality over arbitrary byte strings and strictness of the schema are input-space claims left to fuzzing (DESIGN.md §7 C14)"]
@@ -51,6 +51,36 @@ impl Property for C14 {
             // request is a shallow target so that an accepted project runs quickly
             for h in 0..2u64 {
                 sc.steps.push(Step::Invoke(Invocation { entry: 0, args: vec!["--clean".into()], hash_seed: 5 + h, plan: Plan { seed: 1, ..Default::default() }, side: 0 }));
+            }
+            return sc;
+        }
+        if case_no % 12 == 5 {
+            // state exists, then the configuration is broken in a way only resolution notices,
+            // then `--clean` (or a build): the error must come before anything is deleted
+            let root_yaml = |dep: &str| format!("imports:\n  lib: \"../pa\"\ntargets:\n  t:\n    input: [{{paths: [src.txt]}}]\n    output: [{{paths: [t.out]}}]\n    build: \"@sim id=p0.t read=src.txt write=t.out\"\n  top:\n    dependencies: [\"{}\", t]\n    input: [{{paths: [src.txt]}}]\n    build: \"@sim id=p0.top read=src.txt\"\n", dep);
+            let lib_yaml = "name: lib\ntargets:\n  t:\n    input: [{paths: [src.txt]}]\n    output: [{paths: [t.out]}]\n    build: \"@sim id=pa.t read=src.txt write=t.out\"\n".to_string();
+            let projects = vec![
+                Project { dir: "p0".into(), name: None, imports: vec![("lib".into(), 1)], targets: vec![], raw_yaml: Some(root_yaml("lib::t")) },
+                Project { dir: "pa".into(), name: Some("lib".into()), imports: vec![], targets: vec![], raw_yaml: Some(lib_yaml) },
+            ];
+            let files = vec![FileSpec { path: "p0/src.txt".into(), kind: FileKind::File("root source\n".into()) }, FileSpec { path: "pa/src.txt".into(), kind: FileKind::File("lib source\n".into()) }];
+            let mut sc = Scenario { focus: None, label: "config-broken-after-build".into(), projects, files, vars: BTreeMap::new(), steps: vec![] };
+            let mk = |args: Vec<&str>, h: u64| Step::Invoke(Invocation { entry: 0, args: args.into_iter().map(String::from).collect(), hash_seed: h, plan: Plan { seed: 1, ..Default::default() }, side: 0 });
+            sc.steps.push(mk(vec!["top", "lib::t"], 3 + rng.below(100) as u64));
+            let broken = match rng.below(4) {
+                0 => root_yaml("lib::gone"),
+                1 => root_yaml("nolib::t"),
+                2 => root_yaml("top"),
+                _ => root_yaml("lib::t").replace("input: [{paths: [src.txt]}]\n    build: \"@sim id=p0.top", "input: [\"lib::missing.output\"]\n    build: \"@sim id=p0.top"),
+            };
+            sc.steps.push(Step::Fs(simrt::plan::FsOp::Write { path: "p0/zinoma.yml".into(), content: broken }));
+            let second: Vec<&str> = match rng.below(3) {
+                0 => vec!["--clean"],
+                1 => vec!["--clean", "top"],
+                _ => vec!["top"],
+            };
+            for h in 0..3u64 {
+                sc.steps.push(mk(second.clone(), 11 + 13 * h));
             }
             return sc;
         }
@@ -118,7 +148,10 @@ impl Property for C14 {
             y.push_str(&format!("  t:\n    build: \"@sim id={}.t\"\n", dirs[i]));
             if i <= 1 && invalid.is_none() && rng.chance(8) {
                 // a document that the documented schema excludes: must be rejected, whatever the hash order
-                let (what, text) = match rng.below(7) {
+                let (what, text) = match rng.below(10) {
+                    7 => ("output-ref-two-separators", "  bad:\n    build: \"@sim id=x.bad\"\n    input: [\"a::b::t.output\"]\n".to_string()),
+                    8 => ("output-ref-with-space", "  bad:\n    build: \"@sim id=x.bad\"\n    input: [\"t t.output\"]\n".to_string()),
+                    9 => ("output-ref-with-slash", "  bad:\n    build: \"@sim id=x.bad\"\n    input: [\"dir/t.output\"]\n".to_string()),
                     0 => ("empty-target", "  bad: {}\n".to_string()),
                     1 => ("two-kinds", "  bad:\n    build: \"@sim id=x.bad\"\n    service: \"@sim id=x.bad svc\"\n".to_string()),
                     2 => ("unknown-target-key", "  bad:\n    build: \"@sim id=x.bad\"\n    colour: red\n".to_string()),
@@ -161,6 +194,9 @@ impl Property for C14 {
             Some(w) => format!("config-{}proj-invalid:{}", k, w),
             None => format!("config-{}proj", k),
         };
+        // a malformed reference is only noticed when its target is resolved: `--clean` without
+        // targets resolves every target of every loaded project
+        let request = if invalid.as_deref().map(|w| w.starts_with("output-ref")).unwrap_or(false) { "--clean".to_string() } else { request };
         let mut sc = Scenario { focus: None, label, projects, files: vec![], vars: BTreeMap::new(), steps: vec![] };
         for h in 0..8u64 {
             sc.steps.push(Step::Invoke(Invocation { entry: 0, args: vec![request.clone()], hash_seed: 1 + h * 7919 + rng.below(1000) as u64, plan: Plan { seed: 1, ..Default::default() }, side: 0 }));
@@ -181,10 +217,34 @@ impl Property for C14 {
         for p in &sc.projects {
             arrangement = simrt::stamp::fnv(arrangement, p.raw_yaml.as_deref().unwrap_or("").as_bytes());
         }
+        let broken_after_build = sc.label == "config-broken-after-build";
         for st in &sc.steps {
+            if let Step::Fs(op) = st {
+                let mut clock = case.clock;
+                simrt::vfs::apply_plain(&case.root.clone(), &case.vars_dir(), op, &mut clock);
+                case.clock = clock;
+                seen.clear();
+            }
             if let Step::Invoke(inv) = st {
+                let before = super::history::snapshot_tree(&case.root);
                 let r = run_invocation(sc, &mut case, inv, &format!("h{}", idx));
                 idx += 1;
+                // "reports an error before running or deleting anything"
+                let nothing_started = r.procs.is_empty();
+                if r.code != 0 && nothing_started && r.abnormal().is_none() {
+                    let after = super::history::snapshot_tree(&case.root);
+                    if after != before {
+                        let gone: Vec<String> = before.keys().filter(|k| !after.contains_key(*k)).map(|k| k.display().to_string()).take(4).collect();
+                        return viol(
+                            "rejected-but-tree-modified",
+                            format!("argv={:?} gone={:?}", inv.args, gone),
+                            format!("zinoma refused the configuration (status {}: {}) but the tree changed: missing afterwards {:?}", r.code, r.stderr.lines().last().unwrap_or(""), gone),
+                        );
+                    }
+                }
+                if broken_after_build && idx >= 2 && r.code == 0 {
+                    return viol("invalid-document-accepted", "what=broken-after-build".into(), format!("a configuration whose references cannot be resolved was accepted: argv {:?}", inv.args));
+                }
                 stats.absorb_run(inv, &r, false);
                 if stats.sample.is_none() {
                     let mut s = sample_of(sc, inv, &r);
